@@ -728,8 +728,51 @@ _N = [
     Nest("alignas_expr", "TS", "E", "_Alignas(@) int", 2, 0),
     Nest("typename_bound", "TN", "E", "int[@]", 1, 0),
 ]
+# Every place where a parenthesised type name is parsed speculatively and then
+# re-interpreted: {prefix operator or none} x {type name with the hole in an
+# array bound} x {initialiser} x {postfix suffix or none}.  All of them nest
+# alone (CL_SYSTEMATIC); the representatives in CL_PAIRED also take part in the
+# pair families.
+CL_PREFIXES = {  # name -> (text, level of the whole expression)
+    "none": ("", 6), "sizeof": ("sizeof ", 5), "addr": ("&", 5), "deref": ("*", 5),
+    "minus": ("-", 5), "lnot": ("!", 5), "preinc": ("++", 5), "cast": ("(long)", 4),
+}
+CL_TYPENAMES = {"array": "int[@]", "ptr_array": "int(*)[@]", "struct_member": "struct {int a[@];}"}
+CL_INITS = {"zero": "{0}", "trailing_comma": "{0,}", "designated": "{[0] = 0}"}
+CL_SUFFIXES = {"none": "", "subscript": "[0]", "member": ".a", "postinc": "++", "call": "(1)"}
+
+
+def _cl_constructs():
+    out = []
+    for pn, (ptxt, plevel) in CL_PREFIXES.items():
+        for tn, ttxt in CL_TYPENAMES.items():
+            for inn, itxt in CL_INITS.items():
+                for sn, stxt in CL_SUFFIXES.items():
+                    out.append(Nest(f"cl/{pn}/{tn}/{inn}/{sn}", "E", "E",
+                                    f"{ptxt}({ttxt}){itxt}{stxt}", 1, plevel))
+    return out
+
+
+_CL = _cl_constructs()
+CL_SYSTEMATIC = [c.name for c in _CL]
+CL_PAIRED = [
+    "cl/sizeof/array/zero/none",  # sizeof (int[@]){0}
+    "cl/sizeof/array/zero/member",  # sizeof (int[@]){0}.a
+    "cl/sizeof/struct_member/zero/none",
+    "cl/cast/array/zero/none",  # (long)(int[@]){0}
+    "cl/none/array/zero/subscript",  # (int[@]){0}[0]
+    "cl/addr/array/zero/none",  # &(int[@]){0}
+    "cl/minus/array/zero/subscript",  # -(int[@]){0}[0]
+    "cl/preinc/array/zero/subscript",  # ++(int[@]){0}[0]
+    "cl/none/struct_member/zero/member",  # (struct {int a[@];}){0}.a
+    "cl/none/ptr_array/designated/none",  # (int(*)[@]){[0] = 0}
+]
+_N.append(Nest("param_array_bound", "D", "E", "f(int a[@])", 1, 1))
+PAIR_NAMES = [c.name for c in _N] + CL_PAIRED
+_N.extend(_CL)
 NESTABLE = {c.name: c for c in _N}
 assert len(NESTABLE) == len(_N)
+assert all(n in NESTABLE for n in PAIR_NAMES)
 
 ATOM = {
     "E": ("x", 6),
@@ -1069,6 +1112,91 @@ def parse_time(text, repeat=3, warm_limit=120.0, run_limit=20.0):
         return best, ok, 1 - ok
     finally:
         signal.signal(signal.SIGALRM, old)
+
+
+# ---------------------------------------------------------------------------
+# directive-heavy inputs: name -> (class, n -> text of about n characters).
+# Timed through parse() and on the stand-alone lexer (growth-ratio rule), and
+# measured with a deterministic counter: the input is handed over as a str
+# subclass that counts the characters copied out of it by indexing / slicing
+# (string slicing is invisible to call counts).
+# ---------------------------------------------------------------------------
+DIRECTIVE_TIME_SIZES = (1 << 13, 1 << 15, 1 << 17, 1 << 19)
+DIRECTIVE_COPY_SIZES = (1 << 11, 1 << 12, 1 << 13, 1 << 14, 1 << 15)
+
+
+def _reps(unit, n, head="", tail=""):
+    k = max(1, (n - len(head) - len(tail)) // len(unit(12345)))
+    return head + "".join(unit(i) for i in range(k)) + tail
+
+
+_FLAGS32 = " 1 2 3 4" * 8
+DIRECTIVE_FAMILIES = {
+    "marker_with_flags": ("ppline", lambda n: _reps(
+        lambda i: f'# {i + 1} "inc/hdr{i % 7}.h" 1 3 4\nint v{i};\n', n)),
+    "marker_without_flags": ("ppline", lambda n: _reps(
+        lambda i: f'# {i + 1} "inc/hdr{i % 7}.h"\nint v{i};\n', n)),
+    "marker_one_flag": ("ppline", lambda n: _reps(
+        lambda i: f'# {i + 1} "f.h" 2\nint v{i};\n', n)),
+    "marker_number_only": ("ppline", lambda n: _reps(lambda i: f"# {i + 1}\nint v{i};\n", n)),
+    "line_directive": ("ppline", lambda n: _reps(
+        lambda i: f'#line {i + 1} "f.h"\nint v{i};\n', n)),
+    "line_directive_with_flags": ("ppline", lambda n: _reps(
+        lambda i: f'#line {i + 1} "f.h" 1 3\nint v{i};\n', n)),
+    "marker_many_flags": ("ppline", lambda n: _reps(
+        lambda i: f'# {i + 1} "f.h"{_FLAGS32}\nint v{i};\n', n)),
+    "marker_128_flags": ("ppline", lambda n: _reps(
+        lambda i: f'# {i + 1} "f.h"{" 1 2 3 4" * 32}\nint v{i};\n', n)),
+    "marker_escaped_filename": ("ppline", lambda n: _reps(
+        lambda i: f'# {i + 1} "..{BS}{BS}inc{BS}{BS}hdr.h" 3\nint v{i};\n', n)),
+    "marker_long_filename": ("ppline", lambda n: _reps(
+        lambda i: f'# {i + 1} "{"d/" * 40}hdr.h" 1\nint v{i};\n', n)),
+    "markers_in_function_body": ("ppline", lambda n: _reps(
+        lambda i: f'# {i + 1} "f.c" 1 3 4\nx = {i};\n', n, "void f(int x){\n", "}\n")),
+    "marker_at_top_of_big_file": ("ppline", lambda n: _reps(
+        lambda i: f"int v{i};\n", n, '# 1 "big.h" 1 3 4\n')),
+    "markers_in_first_percent": ("ppline", lambda n: (
+        _reps(lambda i: f'# {i + 1} "f.h" 1 3 4\nint v{i};\n', max(64, n // 100))
+        + _reps(lambda i: f"int w{i};\n", n - max(64, n // 100)))),
+    "markers_in_last_percent": ("ppline", lambda n: (
+        _reps(lambda i: f"int w{i};\n", n - max(64, n // 100))
+        + _reps(lambda i: f'# {i + 1} "f.h" 1 3 4\nint v{i};\n', max(64, n // 100)))),
+    "pragma_lines": ("pragma", lambda n: _reps(
+        lambda i: f"#pragma omp parallel for private(i{i})\nint v{i};\n", n)),
+    "bare_pragma_lines": ("pragma", lambda n: _reps(lambda i: f"#pragma\nint v{i};\n", n)),
+    "long_pragma_lines": ("pragma", lambda n: _reps(
+        lambda i: f"#pragma {'x ' * 200}{i}\nint v{i};\n", n)),
+    "pragmas_in_function_body": ("pragma", lambda n: _reps(
+        lambda i: f"#pragma p {i}\nx = {i};\n", n, "void f(int x){\n", "}\n")),
+    "pragma_at_top_of_big_file": ("pragma", lambda n: _reps(
+        lambda i: f"int v{i};\n", n, "#pragma once\n")),
+}
+
+
+class CountingStr(str):
+    """A str that counts the characters copied out of it by indexing/slicing."""
+
+    copied = 0
+
+    def __getitem__(self, key):
+        res = str.__getitem__(self, key)
+        CountingStr.copied += len(res)
+        return res
+
+
+def copied_chars(text):
+    """-> (outcome, characters the library copied out of the input by
+    indexing/slicing during parse(text)).  Deterministic.  Only sees slicing of
+    the input object itself, which the lexer keeps as it is given."""
+    from pycparser.c_parser import CParser, ParseError
+
+    CountingStr.copied = 0
+    try:
+        CParser().parse(CountingStr(text))
+        out = "ok"
+    except ParseError as e:
+        out = "perr:" + str(e)[:100]
+    return out, CountingStr.copied
 
 
 # ---------------------------------------------------------------------------
